@@ -78,6 +78,7 @@ type profile struct {
 	lazy                                                              bool // Stage D only: an event handles ONE Ready/Advance cycle with probability 1/2 and leaves the rest pending (the application's
 	// ticks and steps interleave with its apply pages, as raftexample's select loop does); never used for lock-step profiles
 	applyPaged                                                        bool // Config.MaxCommittedSizePerReady = 1 byte: committed entries are handed to the application one per Ready (replication itself unpaged)
+	batch                                                             bool // Stage D only: every membership proposal is one MsgProp carrying 2-3 conf-change entries
 	grow                                                              bool // Stage D only: the cluster starts with node 1 as its only voter and grows by AddNode (the usual way a cluster is built)
 	prevote                                                           bool // Config.PreVote (+CheckQuorum): library features raftexample leaves off; outside the model, safety predicates only
 }
@@ -94,6 +95,7 @@ var profiles = []profile{
 	{name: "member-partition", wTick: 24, wDeliver: 50, wDrop: 4, wPropose: 8, wCampaign: 3, wCrash: 2, wCompact: 2, pDup: 0.15, partition: 40, pHeal: 0.4, member: 6},
 	{name: "member-paged", wTick: 15, wDeliver: 70, wDrop: 1, wPropose: 12, wCampaign: 2, wCrash: 4, wCompact: 0, pDup: 0.05, applyPaged: true, member: 6, lazy: true, grow: true},
 	{name: "member-paged-partition", wTick: 18, wDeliver: 62, wDrop: 2, wPropose: 12, wCampaign: 3, wCrash: 4, wCompact: 0, pDup: 0.1, partition: 40, pHeal: 0.4, applyPaged: true, member: 6, lazy: true, grow: true},
+	{name: "member-batch-partition", wTick: 22, wDeliver: 50, wDrop: 4, wPropose: 8, wCampaign: 6, wCrash: 2, wCompact: 1, pDup: 0.1, partition: 25, pHeal: 0.35, member: 12, batch: true},
 	{name: "reorder", wTick: 12, wDeliver: 40, wDrop: 2, wPropose: 10, wCampaign: 5, wCrash: 2, wCompact: 2, pDup: 0.5},
 	{name: "prevote-reorder", wTick: 14, wDeliver: 38, wDrop: 3, wPropose: 8, wCampaign: 10, wCrash: 2, wCompact: 1, pDup: 0.5, prevote: true},
 	{name: "prevote-partition", wTick: 25, wDeliver: 45, wDrop: 4, wPropose: 8, wCampaign: 8, wCrash: 2, wCompact: 1, pDup: 0.3, partition: 30, pHeal: 0.4, prevote: true},
@@ -373,7 +375,11 @@ func (s *sim) projection(nd *simNode) (string, raft.Status, []ent) {
 // drain persists and advances every pending Ready (as raftexample's serveChannels does); returns the messages
 // emitted and how many times `advance` stepped the leader's self-MsgAppResp.
 func (s *sim) drain(nd *simNode) (out []pb.Message, selfAcks int) {
-	for nd.rn.HasReady() {
+	for cycles := 0; nd.rn.HasReady(); cycles++ {
+		if cycles > 20000 {
+			// a node that never stops producing Readys without any input (seen under a broken membership gate): report, do not spin
+			panic(fmt.Sprintf("ready-livelock: node %d produced %d Readys in one event without coming to rest", nd.id, cycles))
+		}
 		rd := nd.rn.Ready()
 		if !raft.IsEmptyHardState(rd.HardState) {
 			_ = nd.ms.SetHardState(rd.HardState)
@@ -816,6 +822,34 @@ func (s *sim) doConfChange(i int) {
 		cc = pb.ConfChange{Type: pb.ConfChangeAddNode, NodeID: x}
 	}
 	s.stats["confchange-"+cc.Type.String()]++
+	if s.prof.batch || s.rng.Intn(4) == 0 {
+		// one proposal message carrying several membership changes (a client library that batches, a forwarded MsgProp): raft must let
+		// only ONE of them through as a membership change (one change at a time) and turn the others into empty entries
+		ents := []pb.Entry{}
+		for k := 0; k < 2+s.rng.Intn(2); k++ {
+			c2 := cc
+			if k > 0 {
+				c2 = pb.ConfChange{Type: pb.ConfChangeAddNode, NodeID: uint64(1 + s.rng.Intn(s.n))}
+				if s.rng.Intn(3) == 0 && len(nd.conf.Voters) >= 3 {
+					c2.Type = pb.ConfChangeRemoveNode
+				}
+			}
+			data, err := c2.Marshal()
+			if err != nil {
+				panic("harness: conf change does not marshal")
+			}
+			ents = append(ents, pb.Entry{Type: pb.EntryConfChange, Data: data})
+		}
+		s.stats["confchange-batched"]++
+		s.event("confchange", i, func() []string {
+			err := nd.rn.Step(pb.Message{Type: pb.MsgProp, From: nd.id, Entries: ents})
+			if err != nil && !errors.Is(err, raft.ErrProposalDropped) {
+				panic(fmt.Sprintf("harness: Step(MsgProp with %d conf changes): %v", len(ents), err))
+			}
+			return []string{"confchange"}
+		})
+		return
+	}
 	s.event("confchange", i, func() []string {
 		err := nd.rn.ProposeConfChange(cc)
 		if err != nil && !errors.Is(err, raft.ErrProposalDropped) {
@@ -844,7 +878,17 @@ func (s *sim) run(events int) {
 	}
 	p := s.prof
 	total := p.wTick + p.wDeliver + p.wDrop + p.wPropose + p.wCampaign + p.wCrash + p.wCompact + p.member
+	idle, lastEv := 0, -1
 	for s.evNo < events && !s.bad {
+		if s.evNo == lastEv {
+			if idle++; idle > 200000 {
+				// nothing can happen any more (every node has applied its own removal): the schedule is over
+				fmt.Fprintf(s.w, "# END-OF-CLUSTER event=%d: no node is left to take an event\n", s.evNo)
+				break
+			}
+		} else {
+			idle, lastEv = 0, s.evNo
+		}
 		if p.partition > 0 && s.evNo%p.partition == p.partition-1 {
 			s.repartition()
 		}
